@@ -27,8 +27,8 @@ PROPS = {
         "assumptions": ["every ChitchatId is used by one incarnation"],
     },
     "C04": {
-        "suites": ["apply", "node", "pair"],
-        "level_text": "Theorems for every copy and every delta (C04_apply_monotone, C04_frontier_monotone, C04_key_version_monotone, C04_new_kv_kept: a key-value of the delta that is new to the copy is never shadowed by an older one, C04_cluster_apply_no_panic), every local write (C04_*_fresh_version, C04_set_same_value_noop) and GC (C04_gc_monotone), unbounded; model tied to state.rs by exhaustive small-scope + random differential runs of apply_delta, the local write API and the sender/receiver pair.",
+        "suites": ["apply", "node", "pair", "catchup"],
+        "level_text": "Theorems for every copy and every delta (C04_apply_monotone, C04_frontier_monotone, C04_key_version_monotone, C04_new_kv_kept: a key-value of the delta that is new to the copy is never shadowed by an older one, C04_cluster_apply_no_panic), every local write (C04_*_fresh_version, C04_set_same_value_noop) and GC (C04_gc_monotone), unbounded; model tied to state.rs by exhaustive small-scope + random differential runs of apply_delta, the local write API and the sender/receiver pair, and by the catch-up suite followed by GC passes (a GC pass never moves a copy's frontier backward, also when catch-up stored tombstones below the watermark).",
         "level_note": _COMMON_NOTE + "u64 version overflow is out of scope (unbounded Nat). The system-level statement (any delivery order) follows because every delivered node delta satisfies KvsLeMax (C09_decoded_delta_wf) and apply only touches the addressed copy.",
         "assumptions": ["u64 version overflow (2^64 writes) is out of scope: versions are unbounded naturals in the model"],
     },
@@ -79,8 +79,8 @@ PROPS = {
         "partial": "exact arithmetic instead of f64",
     },
     "C12": {
-        "suites": ["cluster", "fd"],
-        "level_text": "C12_evalLiveness_inv (live/dead disjoint, local node never dead), C12_partition_after_eval, C12_self_always_live, C12_self_never_removed, C12_quarantine_digest / C12_quarantine_delta / C12_scheduled_iff, C12_removed_at_grace, C12_remove_remembers_heartbeat, C12_recreate_guard, C12_delta_never_creates, C12_catchup_never_recreates, C12_recreated_is_dead, C12_time_of_death_stable (the time of death is set once; stale heartbeats cannot restart the grace period); tied by cluster schedules with clock advances around grace/2 and grace, survivors that keep advertising the dead member, node GC and re-creation.",
+        "suites": ["cluster", "fd", "catchup"],
+        "level_text": "C12_evalLiveness_inv (live/dead disjoint, local node never dead), C12_partition_after_eval, C12_self_always_live, C12_self_never_removed, C12_quarantine_digest / C12_quarantine_delta / C12_scheduled_iff, C12_removed_at_grace, C12_remove_remembers_heartbeat, C12_recreate_guard, C12_delta_never_creates, C12_catchup_never_recreates, C12_recreated_is_dead, C12_time_of_death_stable (the time of death is set once; stale heartbeats cannot restart the grace period); tied by cluster schedules with clock advances around grace/2 and grace, survivors that keep advertising the dead member, node GC and re-creation, members only ever advertised with heartbeat 0, and the catch-up suite (a removed member is not recreated by the catch-up entry point).",
         "level_note": _COMMON_NOTE + "PARTIAL: `dead_node_grace_period.div_f32(2.0)` is modelled as exact halving (generated grace periods are exactly halvable in f32); the LRU memory of 500 removed members is a bounded list.",
         "assumptions": ["grace periods exactly halvable in f32"],
         "partial": "f32 half-grace boundary modelled exactly",
@@ -98,20 +98,20 @@ PROPS = {
         "assumptions": ["the byte budget is exercised through exact-fit budgets for every truncation point; theorems quantify over every admission behaviour"],
     },
     "C15": {
-        "suites": ["listener", "node", "cluster"],
-        "level_text": "C15_trigger_exact (for every subscription map and every UTF-8 key, empty key and empty prefix included, the range scan calls exactly the listeners whose prefix is a prefix of the key, once, with the stripped key; built on the range lemma prefix_in_range and utf8Len_le_length), C15_event_iff (an event iff the write was accepted and is not a deletion), C15_unsubscribed_not_called, C15_unrepaired_panics (F-2). Tied to listener.rs/state.rs by exhaustive keys over an alphabet with 1-, 2- and 4-byte characters, random subscription sets with dropped and forever handles, local and replicated writes; an independent spec-level monitor compares the real callbacks with the matching active subscriptions.",
+        "suites": ["listener", "node", "cluster", "catchup"],
+        "level_text": "C15_trigger_exact (for every subscription map and every UTF-8 key, empty key and empty prefix included, the range scan calls exactly the listeners whose prefix is a prefix of the key, once, with the stripped key; built on the range lemma prefix_in_range and utf8Len_le_length), C15_event_iff (an event iff the write was accepted and is not a deletion), C15_unsubscribed_not_called, C15_unrepaired_panics (F-2). Tied to listener.rs/state.rs by exhaustive keys over an alphabet with 1-, 2- and 4-byte characters, random subscription sets with dropped and forever handles, local and replicated writes; an independent spec-level monitor compares the real callbacks with the matching active subscriptions; on the catch-up entry point the key-change events are compared with a harness-side expectation (supplied, non-deleted, newer than the copy's).",
         "level_note": _COMMON_NOTE + "Listener callbacks are observed through real subscriptions; HashMap iteration order inside one prefix is canonicalised (sorted).",
         "assumptions": [],
     },
     "C16": {
-        "suites": ["cluster"],
-        "level_text": "C16_bad_cluster (a foreign SYN yields exactly the ticked node and a BadCluster reply), C16_tick_only_self_heartbeat, C16_badcluster_reply_inert, C16_no_data_in_reply; system level: processMessage_membership (after process_message a node knows only members it knew, itself, or - for a message of its own cluster - members named in the message; every member named in a reply is known to the node; a reply is never a SYN; data-carrying replies only answer a SYN of the own cluster or a SYN-ACK) and C16_clusters_never_mix (network of any number of nodes of any number of clusters, messages never removed so that loss, duplication and reordering are schedules, arbitrary local steps: invariant NetInv - every member a node holds belongs to its own cluster, every SYN carries its sender's cluster id, every SYN-ACK/ACK travels between nodes of one cluster and names only its members - holds in every reachable state); tied by two-cluster schedules with cross-initiated handshakes and cluster ids that are empty / prefixes / case variants of each other or differ by 256 / 512 bytes in length.",
+        "suites": ["cluster", "udp"],
+        "level_text": "C16_bad_cluster (a foreign SYN yields exactly the ticked node and a BadCluster reply), C16_tick_only_self_heartbeat, C16_badcluster_reply_inert, C16_no_data_in_reply; system level: processMessage_membership (after process_message a node knows only members it knew, itself, or - for a message of its own cluster - members named in the message; every member named in a reply is known to the node; a reply is never a SYN; data-carrying replies only answer a SYN of the own cluster or a SYN-ACK) and C16_clusters_never_mix (network of any number of nodes of any number of clusters, messages never removed so that loss, duplication and reordering are schedules, arbitrary local steps: invariant NetInv - every member a node holds belongs to its own cluster, every SYN carries its sender's cluster id, every SYN-ACK/ACK travels between nodes of one cluster and names only its members - holds in every reachable state); C16_rejection_on_the_wire (whatever the UDP socket sent or failed to send before, the rejection handed to a reachable node is exactly the four bytes of BadCluster); tied by two-cluster schedules with cross-initiated handshakes and cluster ids that are empty / prefixes / case variants of each other or differ by 256 / 512 bytes in length, and by the udp suite (the rejection observed on a real loopback socket after failed sends).",
         "level_note": _COMMON_NOTE + "The two-cluster statement relies on the network assumption that a reply reaches the node the request came from and that an address belongs to one node for the run.",
         "assumptions": ["an address belongs to one node for the whole run"],
     },
     "C17": {
         "suites": ["select", "server"],
-        "level_text": "C17_bounds, C17_seed_forced, C17_dead_forced, C17_no_zero_division for every outcome of the random generator (sampled subset, both f64 draws, both choose() results are universally quantified arguments); the real select_nodes_for_gossip is run on every subset structure of peer/live/dead/seed sets with constant (extreme, mid) and counter generators and its result is checked against the relational model (exactly, for constant generators). The pools: the real server loop is run (scripted transport, paused clock) with 0..5 heartbeating and 0..4 silent peers and a seed that is absent / an outsider / a member / the node itself; for every gossip round the SYN destinations are checked against the live, dead and seed sets the public API shows just before the tick, by the monitor and by the model's selCheck.",
+        "level_text": "C17_bounds, C17_seed_forced, C17_dead_forced, C17_no_zero_division for every outcome of the random generator (sampled subset, both f64 draws, both choose() results are universally quantified arguments); the real select_nodes_for_gossip is run on every subset structure of peer/live/dead/seed sets with constant (extreme, mid) and counter generators and its result is checked against the relational model (exactly, for constant generators). The pools: the real server loop is run (scripted transport, paused clock) with 0..5 heartbeating and 0..4 silent peers and a seed that is absent / an outsider / a member / the node itself; for every gossip round the SYN destinations are checked against the live, dead and seed sets the public API shows just before the tick, by the monitor and by the model's selCheck; pool cases with a literal seed next to a host-name seed run for more than two periods of the DNS refresh loop.",
         "level_note": _COMMON_NOTE + "rand's sample/choose are trusted to return a subset of the requested size / an element of the set (SelRandom.Valid); f64 probability comparisons are modelled with exact rationals (constants avoid ties).",
         "assumptions": ["rand::seq sample/choose contracts"],
     },
